@@ -304,9 +304,14 @@ fn run(ctx: &mut Ctx, prop: &'static str) {
     let cases = ctx.tier.pick(30_000, 300_000);
     let strat = dd_case_strategy(p, types, vec![DdKind::Pooled]);
     ctx.pt_run("dd-random-pooled-depthfree", cases, strat, |c| serde_json::to_value(c).unwrap(), |c, obs| eval(c, obs, prop));
+    // set packing: dynamic variable order + long arcs, sub-problems taken from real cut-sets
+    crate::props::dd_fam::run_part(ctx, prop);
 }
 
-fn replay(_part: &str, case: &Value, _known: &KnownFindings, prop: &str) -> Verdict {
+fn replay(part: &str, case: &Value, _known: &KnownFindings, prop: &str) -> Verdict {
+    if part == "setpack-dynamic-order" || case.get("sp").is_some() {
+        return crate::props::dd_fam::replay(case, prop);
+    }
     match serde_json::from_value::<DdCase>(case.clone()) {
         Ok(c) => {
             c.t.validate();
